@@ -22,6 +22,28 @@ RI = "mouette/procedural/rings.py"
 AB = "mouette/geometry/aabb.py"
 
 
+# ------------------------------------------------------------------ every anchored callable: decorators and defaults
+OK_DECORATORS = {"property", "staticmethod", "classmethod", "allowed_mesh_types", "forbidden_mesh_types", "abstractmethod"}
+
+
+def FD(tree, qual, rel):
+    """find a definition and fail closed on what changes the meaning of a CALL without touching the body: a decorator that
+    is not known to be transparent (a cache would hand out one mutable object to every caller) and a default argument that
+    is not None / an immutable constant (it would be shared by all calls)"""
+    fn = T.find_def(tree, qual, rel)
+    for d in getattr(fn, "decorator_list", []):
+        nm = T.dotted(d.func) if isinstance(d, ast.Call) else T.dotted(d)
+        if nm is None or nm.split(".")[-1] not in OK_DECORATORS:
+            T.fail(rel, d, "decorator on %s is not known to be transparent" % qual)
+    if isinstance(fn, ast.FunctionDef):
+        for dv in list(fn.args.defaults) + [x for x in fn.args.kw_defaults if x is not None]:
+            ok = isinstance(dv, ast.Constant) and (dv.value is None or isinstance(dv.value, (bool, int, float, str)))
+            ok = ok or (isinstance(dv, ast.UnaryOp) and isinstance(dv.operand, ast.Constant))
+            if not ok:
+                T.fail(rel, dv, "default argument of %s is not None / an immutable constant" % qual)
+    return fn
+
+
 # ------------------------------------------------------------------ typed vector expressions
 class Ex:
     def __init__(self, rel, env, point=None):
@@ -216,7 +238,7 @@ def gen_transform(parts, vec_views):
     out = []
 
     def fdef(name):
-        fn = T.find_def(tree, name, TR)
+        fn = FD(tree, name, TR)
         parts.append(("transform." + name, T.sha(src, fn)))
         return fn, T.body_nodoc(fn)
 
@@ -393,7 +415,7 @@ def gen_aabb(parts):
     src, tree = T.load(AB)
     out = []
     for nm in ("span", "center"):
-        fn = T.find_def(tree, "AABB." + nm, AB)
+        fn = FD(tree, "AABB." + nm, AB)
         parts.append(("AABB." + nm, T.sha(src, fn)))
         b = T.body_nodoc(fn)
         if len(b) != 1 or not isinstance(b[0], ast.Return):
@@ -401,7 +423,7 @@ def gen_aabb(parts):
         e = Ex(AB, {"self._p1": ("v", "p1"), "self._p2": ("v", "p2")}).vec(b[0].value)
         out.append("Definition aabb_%s (p1 p2 : vec T) : vec T := %s." % (nm, e))
     for nm, fld in (("mini", "self._p1"), ("maxi", "self._p2")):
-        fn = T.find_def(tree, "AABB." + nm, AB)
+        fn = FD(tree, "AABB." + nm, AB)
         b = T.body_nodoc(fn)
         if not (len(b) == 1 and isinstance(b[0], ast.Return) and T.dotted(b[0].value) == fld):
             T.fail(AB, fn, "AABB.%s is not `return %s`" % (nm, fld))
@@ -411,7 +433,7 @@ def gen_aabb(parts):
 # ------------------------------------------------------------------ vector.py / mesh_data.py
 def vec_is_view():
     src, tree = T.load(VE)
-    fn = T.find_def(tree, "Vec.__new__", VE)
+    fn = FD(tree, "Vec.__new__", VE)
     b = T.body_nodoc(fn)
     if not (len(b) == 2 and isinstance(b[0], ast.If) and isinstance(b[1], ast.Return)):
         T.fail(VE, fn, "Vec.__new__ is not `if len(a)==1: ... else: ...; return obj`")
@@ -432,7 +454,7 @@ def vec_is_view():
 def gen_mesh_data(parts, vec_views):
     src, tree = T.load(MD)
     out = []
-    fn = T.find_def(tree, "RawMeshData._prepare_vertices", MD)
+    fn = FD(tree, "RawMeshData._prepare_vertices", MD)
     parts.append(("RawMeshData._prepare_vertices", T.sha(src, fn)))
     b = T.body_nodoc(fn)
     ok = len(b) == 1 and isinstance(b[0], ast.For) and T.dotted(b[0].iter) == "self.id_vertices" \
@@ -482,7 +504,7 @@ def gen_mesh_data(parts, vec_views):
     out.append("Definition prepare_vertex_mode : cmode := %s." % mode)
     out.append("Definition prepare_stores_floats : bool := %s." % ("true" if floats else "false"))
     # dimensionality chain
-    fn = T.find_def(tree, "RawMeshData._compute_dimensionality", MD)
+    fn = FD(tree, "RawMeshData._compute_dimensionality", MD)
     parts.append(("RawMeshData._compute_dimensionality", T.sha(src, fn)))
     b = T.body_nodoc(fn)
     node = b[0] if len(b) == 1 else None
@@ -538,7 +560,7 @@ def gen_mesh(parts, vec_views):
     src, tree = T.load(ME)
     out = []
     # ---- copy
-    fn = T.find_def(tree, "copy", ME)
+    fn = FD(tree, "copy", ME)
     parts.append(("mesh.copy", T.sha(src, fn)))
     if params(fn) != ["mesh", "copy_attributes", "copy_connectivity"]:
         T.fail(ME, fn, "copy does not take (mesh, copy_attributes, copy_connectivity)")
@@ -668,7 +690,7 @@ def gen_mesh(parts, vec_views):
     out.append("Definition copy_connectivity_mode : cmode := %s." % cm)
 
     # ---- merge
-    fn = T.find_def(tree, "merge", ME)
+    fn = FD(tree, "merge", ME)
     parts.append(("mesh.merge", T.sha(src, fn)))
     b = T.body_nodoc(fn)
     if not (len(b) == 5 and isinstance(b[0], ast.If) and isinstance(b[1], ast.Assign) and T.dotted(b[1].targets[0]) == "merged"
@@ -726,7 +748,7 @@ def gen_mesh(parts, vec_views):
                    % (c, e if not after else "(let off := merge_next_offset off n in %s)" % e))
 
     # ---- from_arrays
-    fn = T.find_def(tree, "from_arrays", ME)
+    fn = FD(tree, "from_arrays", ME)
     parts.append(("mesh.from_arrays", T.sha(src, fn)))
     hits = [s for s in ast.walk(fn) if isinstance(s, ast.AugAssign) and T.dotted(s.target) == "m.vertices"]
     if len(hits) != 1 or not isinstance(hits[0].op, ast.Add):
@@ -734,7 +756,7 @@ def gen_mesh(parts, vec_views):
     out.append("Definition from_arrays_mode : cmode := %s." % elementwise(ME, hits[0].value, {"V"}, vec_views))
 
     # ---- _instanciate_raw_mesh_data: class by max(dim, dimensionality)
-    fn = T.find_def(tree, "_instanciate_raw_mesh_data", ME)
+    fn = FD(tree, "_instanciate_raw_mesh_data", ME)
     parts.append(("mesh._instanciate_raw_mesh_data", T.sha(src, fn)))
     b = T.body_nodoc(fn)
     table = {}
@@ -760,7 +782,7 @@ def gen_mesh(parts, vec_views):
 # ------------------------------------------------------------------ rings.py
 def gen_ring(parts, vec_views):
     src, tree = T.load(RI)
-    fn = T.find_def(tree, "ring", RI)
+    fn = FD(tree, "ring", RI)
     parts.append(("rings.ring", T.sha(src, fn)))
     if params(fn) != ["N", "defect", "open", "n_cover"]:
         T.fail(RI, fn, "ring does not take (N, defect, open, n_cover)")
@@ -854,7 +876,7 @@ def gen_appenders(parts, vec_views):
 
     def appends(rel, qual, cont, bases):
         src, tree = T.load(rel)
-        fn = T.find_def(tree, qual, rel)
+        fn = FD(tree, qual, rel)
         parts.append((qual, T.sha(src, fn)))
         loopvars = set()
         for n in ast.walk(fn):      # `for v in self.mesh.vertices:` makes v one of the mesh's vectors
